@@ -153,7 +153,7 @@ def run_vqe(case, ctx):
     from tangelo.toolboxes.qubit_mappings.mapping_transform import fermion_to_qubit_mapping
     rng, pr, s = case_rng(ctx.seed, "C13", "vqe", case["i"])
     uhf = case["i"] % 4 == 3
-    spec = chem.mol_spec(pr, rng, kinds=["H2", "H3+", "H4", "H2_321g", "H4ring"] if uhf else ["H2", "H3+", "H3", "H4", "H2_321g", "H4+"],
+    spec = chem.mol_spec(pr, rng, kinds=["H2", "H3+", "H4", "H2_321g", "H4ring", "H3", "H3", "H4+", "H4"] if uhf else ["H2", "H3+", "H3", "H4", "H2_321g", "H4+"],
                          allow_uhf=False)
     if case.get("force") == "triplet_scbk":
         uhf = False
@@ -181,10 +181,16 @@ def run_vqe(case, ctx):
         solver.build()
         for r in range(2 if ctx.tier == "quick" else 4):
             theta = ansatzlib.rand_params(pr, solver.ansatz.n_var_params, pr.choice(["uniform", "uniform", "big", "zeros"]))
+            # "for any parameter vector": in every other round the RDMs are requested BEFORE any energy evaluation at these parameters,
+            # i.e. while the ansatz still holds the previous vector (after build(): its initial one)
+            rdm_first = (r % 2 == 0)
+            pre = None
+            if rdm_first:
+                pre = solver.get_rdm_uhf(list(theta)) if mol.uhf else {ss: solver.get_rdm(list(theta), sum_spin=ss) for ss in (True, False)}
             e = solver.energy_estimation(list(theta))
-            w = dict(wit, theta=theta)
+            w = dict(wit, theta=theta, rdm_requested_before_energy=rdm_first)
             if mol.uhf:
-                g1, g2 = solver.get_rdm_uhf(list(theta))
+                g1, g2 = pre if rdm_first else solver.get_rdm_uhf(list(theta))
                 e_t = mol.energy_from_rdms(g1, g2)
                 ctx.check("energy_from_rdms", abs(e_t - e) < 1e-6, f"VQE (UHF): energy_from_rdms = {e_t:.9f}, energy_estimation {e:.9f}", dict(w, got=e_t, energy=e))
                 tr = float(np.trace(g1[0]) + np.trace(g1[1]))
@@ -207,7 +213,7 @@ def run_vqe(case, ctx):
                 ctx.check("hermitian", he < 1e-6, "VQE (UHF): 1-RDMs are not symmetric", dict(w, error=he))
                 continue
             for sum_spin in (True, False):
-                g1, g2 = solver.get_rdm(list(theta), sum_spin=sum_spin)
+                g1, g2 = pre[sum_spin] if rdm_first else solver.get_rdm(list(theta), sum_spin=sum_spin)
                 if sum_spin:
                     e_t = mol.energy_from_rdms(g1, g2)
                     ctx.check("energy_from_rdms", abs(e_t - e) < 1e-6, f"VQE: energy_from_rdms = {e_t:.9f}, energy_estimation {e:.9f}", dict(w, got=e_t, energy=e))
